@@ -27,6 +27,10 @@ def main():
     for n in names:
         d = f"{ROOT}/seeded/{n}"
         meta = json.load(open(f"{d}/meta.json"))
+        if meta.get("obsolete_since"):
+            rows.append((n, "obsolete (the change no longer breaks the property on this tree)", "", meta.get("idea", "")))
+            print(n, "obsolete")
+            continue
         checks = []
         for c in re.findall(r"(C\d\d) quick", meta.get("detected_by", "")):
             if c not in checks:
@@ -65,7 +69,7 @@ def main():
         f.write(f"# seeded changes against /repo at {head}\n\n(in parentheses: number of violating cases in the quick tier)\n\n| change | quick checks | first classes reported |\n|---|---|---|\n")
         for n, r, c, _ in rows:
             f.write(f"| {n} | {r} | {c.replace('|', '/')} |\n")
-    bad = [r for r in rows if "DETECTED" not in r[1]]
+    bad = [r for r in rows if "DETECTED" not in r[1] and not r[1].startswith("obsolete")]
     print(f"{len(rows)} changes, {len(rows) - len(bad)} detected by at least one check; not detected: {[b[0] for b in bad]}")
     sh(f"cd {ROOT} && ./check --build")
 
